@@ -36,6 +36,7 @@ pub enum Summ {
 
 #[derive(Clone, Debug, Serialize, Deserialize)]
 pub struct Read {
+    #[serde(with = "simcore::dna::serde_seq")]
     pub seq: Vec<u8>,
     pub exts: u8,
     pub label: u32,
@@ -592,9 +593,9 @@ impl Harness for C05 {
     fn shrink(&self, c: &Case) -> Vec<Case> {
         let mut out = Vec::new();
         let k = k_of(&c.ktype);
-        for i in 0..c.reads.len() {
+        for (a, b) in simcore::spec::removal_ranges(c.reads.len()) {
             let mut x = c.clone();
-            x.reads.remove(i);
+            x.reads.drain(a..b);
             out.push(x);
         }
         if c.budgets.len() > 2 {
@@ -604,7 +605,7 @@ impl Harness for C05 {
                 out.push(x);
             }
         }
-        for i in 0..c.reads.len() {
+        for i in 0..c.reads.len().min(64) {
             let n = c.reads[i].seq.len();
             if n > k {
                 for (a, b) in [(0, n / 2 + k / 2), (n / 2 - (k / 2).min(n / 2), n), (1, n), (0, n - 1)] {
@@ -682,10 +683,30 @@ pub fn unhooked(opts: &simcore::driver::Opts) -> i32 {
         let seq = dna::random_seq(&mut rng, n_kmers + 15, &[0, 1, 2, 3]);
         let seqs: Vec<(DnaBytes, Exts, Fat)> = vec![(DnaBytes(seq.clone()), Exts::empty(), Fat([7u8; 65536]))];
         verif_hooks::set_bytes_per_unit(None);
-        let (t1, a1) = filter_kmers::<Kmer16, _, Fat, u16, CountFilter>(&seqs, &Box::new(CountFilter::new(1)), false, true, 1);
-        let p1 = verif_hooks::last_passes();
-        let (t2, a2) = filter_kmers::<Kmer16, _, Fat, u16, CountFilter>(&seqs, &Box::new(CountFilter::new(1)), false, true, 64);
-        let p2 = verif_hooks::last_passes();
+        let both = simcore::driver::guarded(|| {
+            let r1 = filter_kmers::<Kmer16, _, Fat, u16, CountFilter>(&seqs, &Box::new(CountFilter::new(1)), false, true, 1);
+            let p1 = verif_hooks::last_passes();
+            let r2 = filter_kmers::<Kmer16, _, Fat, u16, CountFilter>(&seqs, &Box::new(CountFilter::new(1)), false, true, 64);
+            let p2 = verif_hooks::last_passes();
+            (r1, p1, r2, p2)
+        });
+        let ((t1, a1), p1, (t2, a2), p2) = match both {
+            Ok(x) => x,
+            Err((loc, msg)) => {
+                violations += 1;
+                let _ = std::fs::create_dir_all(&opts.replay_dir);
+                let path = opts.replay_dir.join(format!("C05-c05-unhooked-{}.json", i));
+                let doc = json!({"property": "C05", "check": "c05-unhooked", "engine": "S", "verif_seed": opts.seed, "config_index": i,
+                    "violation": {"class": "panic", "site": "filter_kmers (shipped budget unit)", "detail": format!("panicked at {}: {}", loc, msg)},
+                    "replay": format!("sim-std c05-unhooked --seed {} --tier {}", opts.seed, opts.tier.as_str())});
+                let _ = std::fs::write(&path, serde_json::to_string_pretty(&doc).unwrap());
+                println!("violation check=c05-unhooked class=panic: filter_kmers panicked at {}: {}", loc, msg.chars().take(200).collect::<String>());
+                println!("VIOLATION property=C05 replay={}", path.display());
+                replay_files.push(path.display().to_string());
+                samples.push(json!({"input_kmers": n_kmers, "outcome": "panic"}));
+                continue;
+            }
+        };
         evals += 2;
         let (pl1, al1) = plain(&t1, &a1);
         let (pl2, al2) = plain(&t2, &a2);
